@@ -16,6 +16,33 @@ CLAIMED = {
     "C05": ("SSA must-held lock-set + path-count typestate + who-calls/who-constructs scans",
             "Sound lock-discipline argument over all schedules: every access to the shared bufio.Writer is inside one critical section of the connection's single mutex that emits exactly one whole frame and flushes it; no schedule is executed.",
             "2/C05", ""),
+    "C06": ("SSA induction-variable provenance + control-dependence of synchronous dispatch sites + wait-edge scan",
+            "Decides, for every pipeline, that Request.ID is the read loop's 1,2,3,... counter and that no path of the read loop runs or waits for a handler except for Unbind/StartTLS; scheduler progress is not decided.",
+            "2/C06", ""),
+    "C08": ("CFG ordering / exactly-once path rules on the per-connection teardown, who-calls scans, WaitGroup pairing",
+            "Decides on every exit path: teardown registered first, Wait -> Close -> OnClose each exactly once, nobody else closes or reports, Add/Done pairing; the run-time census of goroutines/descriptors is not decided.",
+            "2/C08", ""),
+    "C09": ("SSA induction-variable and who-writes provenance",
+            "Connection ID is a private strictly increasing loop counter, immutable after newConn, returned by the getter and handed unchanged to OnClose; uniqueness within one Run.",
+            "2/C09", ""),
+    "C10": ("control-dependence + CFG path search from the unbind edge",
+            "All clauses structural: unbind decided before any dispatch, nothing read/dispatched after it, handler exactly once iff registered, no response written by gldap.",
+            "2/C10", ""),
+    "C11": ("necessary-condition check: asynchronous waker on shutdownCtx located by socket-use provenance + dominance, Stop ordering, lock scan",
+            "Necessary structural condition only: an asynchronous close/deadline of every connection's socket on shutdown exists and is armed before the first read; Stop orders Close/cancel before Wait. The time bound itself is not decided.",
+            "2/C11", "Timing clause not decided."),
+    "C12": ("CFG ordering rules on teardown/Run/Stop exits (must-pass-through, control dependence on the listener-closed atom)",
+            "Decides ordering/pairing quiescence depends on: Done last, listener released on every Run exit, Stop idempotent and ordered. The accept-vs-Stop WaitGroup ordering (D10) is reported as a note only; kernel port state not decided.",
+            "2/C12", ""),
+    "C13": ("control-dependence of the StartTLS dispatch site, value provenance in StartTLS/initConn, lock-set, socket-use discipline scan",
+            "Decides that no LDAP read can interleave with the upgrade and that after it all I/O goes through the TLS reader/writer pair built from the handshaken connection; crypto/tls behaviour is trusted.",
+            "2/C13", ""),
+    "C17": ("control-dependence of flag stores on net.Listen's error + who-writes + lock-set",
+            "Decides the only-if-bound direction for every address and schedule; kernel accept behaviour is not decided.",
+            "2/C17", ""),
+    "C18": ("listener provenance through functional-option summaries, socket-use discipline, constant/provenance checks on the test directory's tls.Config",
+            "Decides that on a TLS port the only byte source of a handler is a tls.Conn created from exactly the configured policy, and that the test directory's mTLS policy requires and verifies client certificates; crypto/tls is trusted.",
+            "2/C18", ""),
 }
 
 NOT_YET = "rule set designed in DESIGN.md section 2 but not built/armed yet in this round; not claimed until its rules run clean and catch seeded changes"
